@@ -8,9 +8,17 @@ TREE_ASSUME = ['the harness-side sorted-array model and orderings (h_tree.c) are
                'shapes are de-duplicated by a 64-bit hash of (key bytes, colour) in pre-order']
 
 
+REFS_HASH = ('refs/ref_hash.c',)
+
+
+def scale_job(tier):
+    """the containers at scale and after long histories (h_scale.c): hundreds of thousands of elements, values up to 1 MiB, drain and reuse"""
+    return Job('h_scale', 'plain', extra_srcs=REFS_HASH, args=(['--n', '1200007', '--huge', '1'] if tier == 'thorough' else ['--n', '300007']))
+
+
 def tree_jobs(prop, q_args, t_args):
     def jobs(tier, seed):
-        return [Job('h_tree', 'plain', args=(t_args if tier == 'thorough' else q_args))]
+        return [Job('h_tree', 'plain', args=(t_args if tier == 'thorough' else q_args)), scale_job(tier)]
     return jobs
 
 
@@ -53,12 +61,10 @@ CHECKS['C04'] = dict(
     assumptions=TREE_ASSUME + ['CPU budget 2 s per call decides non-termination'])
 
 
-REFS_HASH = ('refs/ref_hash.c',)
-
 CHECKS['C05'] = dict(
     title='hash table exact map for every history and range', level='exploration',
     jobs=lambda tier, seed: [Job('h_hashtbl', 'plain', extra_srcs=REFS_HASH,
-                                 args=['--cases', '48000' if tier == 'thorough' else '480'])],
+                                 args=['--cases', '48000' if tier == 'thorough' else '480']), scale_job(tier)],
     rule='evaluation = one API call (put/putstr/putstrf/putint/get/getstr/getint/remove/clear/size/getnext walk) compared with an association-array model; '
          'after every operation of small configurations (every 16th otherwise) every universe key is re-read and the chain walker re-checks slot placement '
          '(reference MurmurHash3), stored hashes, duplicates and the count. Ranges 1,2,3,7,64,default; removals chosen by chain position head/middle/tail/only; one key style consists of pairs of distinct keys with identical full 32-bit hashes (found by birthday search with the reference hash). '
@@ -79,7 +85,7 @@ def hasharr_jobs(prop):
         q = ['--maxcap', '7', '--cases', '280', '--statecap', '200000']
         t = ['--maxcap', '12', '--cases', '3500', '--statecap', '3000000']
         a = t if tier == 'thorough' else q
-        js = [Job('h_hasharr', 'plain', extra_srcs=REFS_HASH, args=a + (['--longchain', '1'] if (prop == 'C06' and tier == 'thorough') else []))]
+        js = [Job('h_hasharr', 'plain', extra_srcs=REFS_HASH, args=a + (['--longchain', '1'] if (prop == 'C06' and tier == 'thorough') else [])), scale_job(tier)]
         if prop == 'C07':
             qa = ['--maxcap', '5', '--cases', '140', '--statecap', '100000']
             ta = ['--maxcap', '8', '--cases', '1500', '--statecap', '600000']     # capacity 9 under ASan took ~1 h on two shards (the BFS of one capacity is one case)
@@ -114,7 +120,7 @@ CHECKS['C07'] = dict(
 
 CHECKS['C08'] = dict(
     title='list table exact ordered multimap under every option combination', level='exploration',
-    jobs=lambda tier, seed: [Job('h_listtbl', 'plain', extra_srcs=REFS_HASH, args=['--cases', '128000' if tier == 'thorough' else '960'])],
+    jobs=lambda tier, seed: [Job('h_listtbl', 'plain', extra_srcs=REFS_HASH, args=['--cases', '128000' if tier == 'thorough' else '960']), scale_job(tier)],
     rule='evaluation = one operation (put/putstr/putstrf/putint, get/getstr/getint, getmulti, remove, full and name-filtered walks with both copy flags, '
          'removeobj of the first/last/only/middle entry during a walk, sort, save+load with and without encoding, clear) compared with an ordered-multimap model '
          'parameterised by the 4 options; after every operation the raw chain (public links) is compared entry by entry with the model order and the link invariants are checked. '
@@ -127,7 +133,7 @@ CHECKS['C08'] = dict(
 
 CHECKS['C09'] = dict(
     title='list, queue, stack, grow buffer exact sequences', level='exploration',
-    jobs=lambda tier, seed: [Job('h_list', 'plain', args=['--cases', '64000' if tier == 'thorough' else '480'])],
+    jobs=lambda tier, seed: [Job('h_list', 'plain', args=['--cases', '64000' if tier == 'thorough' else '480']), scale_job(tier)],
     rule='evaluation = one operation compared with an array-of-byte-strings model (result, out-size, errno class ERANGE/ENOBUFS/EINVAL/ENOENT), followed by a full comparison of the '
          'chain (public links, both directions), size() and datasize(). Exhaustive sweep: every (n<=12, index in [-n-2,n+2], op in addat/getat/popat/removeat, size limit none/n-1/n/n+1) cell on a fresh list; '
          'random histories of list (all operations incl. setsize, reverse, toarray, tostring, getnext), queue (FIFO), stack (LIFO) and grow buffer (concatenation). '
@@ -140,7 +146,7 @@ CHECKS['C09'] = dict(
 
 CHECKS['C10'] = dict(
     title='vector exact array under every growth policy', level='exploration',
-    jobs=lambda tier, seed: [Job('h_vector', 'plain', args=['--cases', '64000' if tier == 'thorough' else '320'])],
+    jobs=lambda tier, seed: [Job('h_vector', 'plain', args=['--cases', '64000' if tier == 'thorough' else '320']), scale_job(tier)],
     rule='evaluation = one operation compared with an array-of-fixed-size-elements model (result, returned bytes, errno ERANGE/ENOENT/EINVAL), followed by a comparison of the whole '
          'element buffer, size(), element size, num<=max and data!=NULL iff max>0. Exhaustive sweep: every (n<=10, index in [-n-2,n+2], element size 1/3/8/17/64, policy exact/linear/double, '
          'initial capacity 0/1/n/n+3, op addat/getat/setat/popat/removeat) cell; random histories with resize to 0 / at or below n / above n / to a capacity that can not be allocated / to a capacity whose byte count overflows size_t (both must be refused without effect) interleaved with middle insertion and removal. '
